@@ -209,7 +209,8 @@ def one_run(seed, run, force_config=None, overrides=None, max_diag=3):
            "discard": b["discard"], "violations": [],
            "not_c15": 0, "harness": [], "steps": 0, "switches": 0, "fired": {}, "overlap": 0, "n_cmp": 0,
            "shape": None, "nontrivial": False, "ndup": b["ndup"], "schedule_hash": None, "preempt_in_lib": 0,
-           "hows": {}, "dup_kinds": {}, "mutable_objs": 0, "calls_after_dup": 0}
+           "hows": {}, "dup_kinds": {}, "mutable_objs": 0, "calls_after_dup": 0,
+           "alias_fx": sum(len(op.get("alias_fx", ())) for op in program)}
     if b["discard"]:
         return res, program
     res["shape"] = runner.shape_of(program)
@@ -534,7 +535,8 @@ def new_agg():
             "steps": 0, "switches": 0, "fired": collections.Counter(), "overlap": 0, "shapes": set(),
             "nontrivial_shapes": set(), "configs": collections.Counter(), "samples": [], "schedules": set(),
             "preempt_in_lib": 0, "hows": collections.Counter(), "dup_kinds": collections.Counter(), "ndup": 0,
-            "mutable_objs": 0, "calls_after_dup": 0, "restarts": 0, "restart_continuations": 0, "fault_runs": 0}
+            "mutable_objs": 0, "calls_after_dup": 0, "restarts": 0, "restart_continuations": 0, "fault_runs": 0,
+            "alias_fx": 0}
 
 
 def fold(agg, res, program):
@@ -544,7 +546,7 @@ def fold(agg, res, program):
         agg["discards"] += 1
         return
     for k in ("n_cmp", "not_c15", "steps", "switches", "overlap", "preempt_in_lib", "ndup", "mutable_objs",
-              "calls_after_dup"):
+              "calls_after_dup", "alias_fx"):
         agg[k] += res[k]
     agg["ops"] += res["nops"]
     agg["harness"].extend(res["harness"][:2])
@@ -607,6 +609,7 @@ def evidence(agg, tier, seed, wall):
         "classes_duplicated": dict(agg["dup_kinds"]),
         "builder_calls_on_a_duplicate_or_its_original_after_the_dup": agg["calls_after_dup"],
         "mutable_mode_objects": agg["mutable_objs"],
+        "automatic_aliases_written_into_shared_arguments": agg["alias_fx"],
         "restarts_pickle_to_other_interpreter": agg["restarts"],
         "ops_continued_on_restored_objects": agg["restart_continuations"],
         "slots_compared_with_rebuild": agg["n_cmp"],
